@@ -2,8 +2,9 @@ import TongoModel.PoolSelect
 import TongoModel.PoolSM
 import TongoProofs.Lemmas.PoolSelect
 import TongoProofs.Lemmas.PoolSMDeadlock
-import TongoGen.PoolSeqno
 import TongoProofs.Lemmas.GenTiesA
+import TongoProofs.Lemmas.PoolSMSelect
+import TongoProofs.Lemmas.PoolSMLive
 /-! Property C13 — the connection pool picks a healthy, current server and its waits never hang.
 Property theorems only (helper lemmas live in TongoProofs/Lemmas/PoolSelect.lean, PoolSM*.lean).
 
@@ -123,18 +124,6 @@ example :
     (∀ c ∈ cs, c.seqno.toNat < 2 ^ 32 - 1) ∧ updateBest true .bestPing cs none = some ⟨2, true, 99#32, 7⟩ ∧
     updateBest false .firstWorking cs none = some ⟨2, true, 99#32, 7⟩ := by decide
 
-/-- tie (X4, regenerated from liteapi/pool/conn_pool.go): the acceptance test of `findFirstWorkingConnection`
-(`uint64(c.MasterHead().Seqno)+1 >= uint64(maxSeqno)`), as REGENERATED on every run, is the model's `working false`. -/
-theorem gen_firstWorkingAccepts (m : BitVec 32) (c : Conn) :
-    Gen.PoolSeqno.firstWorkingAccepts m c.seqno = working false m c :=
-  GenTies.gen_firstWorkingAccepts m c
-
-/-- tie (X4, regenerated from liteapi/pool/conn_pool.go): the skip test of `findBestPingConnection`
-(`uint64(c.MasterHead().Seqno)+1 < uint64(maxSeqno)`), as REGENERATED on every run, is the negation of `working false`. -/
-theorem gen_bestPingSkips (m : BitVec 32) (c : Conn) :
-    Gen.PoolSeqno.bestPingSkips m c.seqno = !working false m c :=
-  GenTies.gen_bestPingSkips m c
-
 /-! ## Part 2: the wait protocol (`TongoModel/PoolSM.lean`)
 
 `PoolSM.orig` is the code as originally written, `PoolSM.fixed` the repaired code (non-blocking notifySubscribers
@@ -143,21 +132,115 @@ reachable from an initial state with ANY number of connections, waiters and SetM
 enabled actions (all interleavings). -/
 open Tongo.PoolSM
 
+/-! ### The selection clause against MOVING heads (round 2: `updateBest` is modelled read by read inside PoolSM) -/
+
+/-- **select_spec_concurrent** (repaired code: one snapshot per refresh). Whatever SetMasterHead callers and the
+environment do while the refresh runs, the store step of `updateBest` writes exactly the property's rule applied to
+the snapshot `acc` the refresh has read — one entry per member, in configuration order, whose head is the one read in
+the (single) reading loop and is a head that member really had (heads only grow, so it is `≤` the member's head now):
+* `s'.best` = the id of `specSelect strategy acc none`, the previous choice when that is `none`;
+* hence a NEWLY chosen member is alive (as read), at most one block behind EVERY head the pool read in this refresh,
+  and is the least-rtt / first such member by `select_spec`.
+There is no instant at which all heads are read together, so "the newest head known to the pool" can only mean the
+newest head the refresh read; that is the strongest true statement. -/
+theorem select_spec_concurrent (v : Variant) (hv : v.oneSnapshot = true) (s s' : State) (hr : Reachable v s)
+    (hs : PoolSM.step v s .ubSet = some s') :
+    ∃ i seqs acc, s.run = .ubSel i seqs acc ∧ acc.length = s.heads.length ∧ acc.map (·.seqno) = seqs ∧
+      (∀ (k : Nat) (c : Conn), acc[k]? = some c → c.id = k ∧ c.seqno.toNat ≤ s.heads.getD k 0) ∧
+      s'.best = (match specSelect s.strategy acc none with | some c => some c.id | none => s.best) ∧
+      (∀ c, specSelect s.strategy acc none = some c →
+        c ∈ acc ∧ c.alive = true ∧ (∀ d ∈ acc, d.seqno.toNat ≤ c.seqno.toNat + 1)) := by
+  have hL := reachable_invL hr
+  have hS := reachable_invS hv hr
+  simp only [PoolSM.step] at hs
+  split at hs
+  · rename_i i seqs acc hrun
+    obtain ⟨hlen, hok⟩ := hL.selOk i seqs acc hrun
+    obtain ⟨hi, hsl, hsame⟩ := hS.selLen i seqs acc hrun
+    split at hs
+    · rename_i hge
+      have hin : i = s.heads.length := by omega
+      have hmap : acc.map (·.seqno) = seqs := by
+        apply List.ext_getElem?
+        intro k
+        simp only [List.getElem?_map]
+        cases hk : acc[k]? with
+        | some c => simp [hsame k c hk]
+        | none =>
+          have : acc.length ≤ k := List.getElem?_eq_none_iff.mp hk
+          simp [List.getElem?_eq_none (by omega : seqs.length ≤ k)]
+      have hsel : selectWith false s.strategy (maxOfSeqs seqs) acc = specSelect s.strategy acc none := by
+        rw [← hmap, maxOfSeqs_map, selectWith_eq_spec]
+      have hcand : ∀ c, specSelect s.strategy acc none = some c →
+          c ∈ acc ∧ c.alive = true ∧ (∀ d ∈ acc, d.seqno.toNat ≤ c.seqno.toNat + 1) := by
+        intro c hc
+        have hmem : c ∈ candidates acc := by
+          unfold specSelect at hc
+          cases hst : s.strategy with
+          | other => rw [hst] at hc; cases hc
+          | bestPing =>
+            rw [hst] at hc
+            cases hf : firstMin (candidates acc) with
+            | none => rw [hf] at hc; cases hc
+            | some x =>
+              rw [hf] at hc; simp only [Option.some.injEq] at hc; subst hc
+              obtain ⟨pre, post, hl, _, _⟩ := firstMin_isFirstMin hf
+              rw [hl]; simp
+          | firstWorking =>
+            rw [hst] at hc
+            cases hf : (candidates acc).head? with
+            | none => rw [hf] at hc; cases hc
+            | some x =>
+              rw [hf] at hc; simp only [Option.some.injEq] at hc; subst hc
+              exact List.mem_of_head? hf
+        simp only [candidates, List.mem_filter, Bool.and_eq_true, current, List.all_eq_true,
+          decide_eq_true_eq] at hmem
+        exact ⟨hmem.1, hmem.2.1, hmem.2.2⟩
+      refine ⟨i, seqs, acc, hrun, by omega, hmap, hok.2, ?_, hcand⟩
+      rw [hsel] at hs
+      cases hsp : specSelect s.strategy acc none with
+      | none => rw [hsp] at hs; cases hs; rfl
+      | some c =>
+        rw [hsp] at hs
+        simp only at hs
+        split at hs <;> (cases hs; rfl)
+    · cases hs
+  · cases hs
+
+/-- the members of the two-pass witness: member 0 (rtt 1) at head 5, member 1 (rtt 2) at head 10 -/
+def twoPassTrace : List Action :=
+  [.tick, .ubLock, .ubRead, .ubRead, .ubRead, .sLock 0, .sSend 0, .sLock 1, .sSend 1, .ubSel, .ubSel, .ubSet]
+
+/-- **select_two_pass_witness**: the ORIGINAL updateBest reads every head twice. Heads `[5, 10]`, best-ping, member 0
+faster. The max loop reads 5 and 10 (max 10); then member 1 moves to 12 and member 0 to 9; the selection loop reads
+9 (`9+1 ≥ 10`: accepted) and 12 and switches to member 0 — three blocks behind a head it has just read, at no instant
+of the refresh within one block of the newest head. The repaired code (one snapshot) chooses member 1 on the same
+schedule. Replayed on the Go code by `go.selectmv best-ping -1 1:5:1 1:10:2 m2:1:12 m2:0:9`. -/
+theorem select_two_pass_witness :
+    (runTrace ⟨true, true, false, true⟩ (mkInit [5, 10] none [] [(1, 12), (0, 9)] .bestPing [1, 2]) twoPassTrace).map
+      (fun s => (s.best, s.heads)) = some (some 0, [9, 12]) ∧
+    (runTrace fixed (mkInit [5, 10] none [] [(1, 12), (0, 9)] .bestPing [1, 2]) twoPassTrace).map
+      (fun s => (s.best, s.heads)) = some (some 1, [9, 12]) := by
+  constructor <;> decide
+
+
 /-- deadlock freedom: in every reachable state some thread can take a step of its own, or every thread is finished or
 parked in its select on an empty channel (then only a tick, a timer, a cancellation or a new head can happen) -/
 def NoDeadlock (v : Variant) : Prop := ∀ s, Reachable v s → quiescent s = true ∨ CanStep v s
 
-/-- the 13-step counterexample for the original notifySubscribers: one waiter (target 10), two heads (5, 6) -/
+/-- the 15-step counterexample for the original notifySubscribers: one waiter (target 10), two heads (5, 6) -/
 def deadlockTraceNotify : List Action :=
-  [.wLock 0, .wSub 0, .sLock 0, .sSend 0, .recv, .nRLock, .nSend 0, .nDone, .sLock 1, .sSend 1, .recv, .nRLock, .wFire 0]
+  [.wLock 0, .wSub 0, .sLock 0, .sSend 0, .recv, .nRLock, .nCheck, .nSend 0, .nDone, .sLock 1, .sSend 1, .recv, .nRLock,
+   .nCheck, .wFire 0]
 
 /-- **no_deadlock is FALSE for the code as written** (defect #11). One waiter subscribes for seqno 10; head 5 is
 published and delivered into its cap-1 channel (unread); head 6 is published, `Run` takes it and holds `RLock` in
 notifySubscribers, blocked on the full channel; the waiter's timer fires and its deferred unsubscribe needs `Lock`.
-In the reached state NO action of any thread is enabled — not even a tick or a timer — and the waiter has not
-returned. The witness is evaluated by `decide`; replayed on the Go code by `go.wait.adv.cancel`. -/
+In the reached state NO action of any thread is enabled — not even a tick or a timer (only a member's liveness
+attributes can still change, which unblocks nothing) — and the waiter has not returned. The witness is evaluated by `decide`; replayed on the Go code by `go.wait.adv.cancel`. -/
 theorem deadlock_orig_notify :
-    ∃ s, Reachable orig s ∧ (∀ a, PoolSM.step orig s a = none) ∧ quiescent s = false ∧ ¬ CanStep orig s := by
+    ∃ s, Reachable orig s ∧ (∀ a, a.isAttr = false → PoolSM.step orig s a = none) ∧ quiescent s = false ∧
+      ¬ CanStep orig s := by
   have h : (runTrace orig (mkInit [0] (some 0) [10] [(0, 5), (0, 6)]) deadlockTraceNotify).map (deadlocked orig)
       = some true := by decide
   cases hs : runTrace orig (mkInit [0] (some 0) [10] [(0, 5), (0, 6)]) deadlockTraceNotify with
@@ -166,9 +249,10 @@ theorem deadlock_orig_notify :
     rw [hs] at h
     simp only [Option.map_some, Option.some.injEq] at h
     have hr : Reachable orig s :=
-      reachable_of_runTrace _ (Reachable.init [0] (some 0) [10] [(0, 5), (0, 6)] (by decide)) hs
+      reachable_of_runTrace _ (Reachable.init [0] (some 0) [10] [(0, 5), (0, 6)] .bestPing [] (by decide) (by decide)) hs
     obtain ⟨h1, h2⟩ := deadlocked_spec h
-    exact ⟨s, hr, h1, h2, fun ⟨a, _, ha⟩ => by rw [h1 a] at ha; cases ha⟩
+    exact ⟨s, hr, h1, h2, fun ⟨a, hae, ha⟩ => by
+      rw [h1 a (by cases a <;> simp_all [Action.isAttr, Action.isEnv])] at ha; cases ha⟩
 
 theorem no_deadlock_orig_false : ¬ NoDeadlock orig := by
   intro h
@@ -184,14 +268,14 @@ def deadlockTracePublish : List Action :=
   [.tick, .ubLock] ++ (List.range 10).flatMap (fun j => [.sLock j, .sSend j]) ++ [.sLock 10]
 
 /-- **the second deadlock**: it exists in the code as written and also when only notifySubscribers is repaired
-(`⟨true, false⟩`), so both repairs are needed. No waiter is involved. Replayed on Go by `go.wait.adv.publish`. -/
+(`⟨true, false, true, true⟩`), so both repairs are needed. No waiter is involved. Replayed on Go by `go.wait.adv.publish`. -/
 theorem deadlock_orig_publish :
-    (∃ s, Reachable orig s ∧ (∀ a, PoolSM.step orig s a = none) ∧ quiescent s = false) ∧
-    ¬ NoDeadlock ⟨true, false⟩ := by
+    (∃ s, Reachable orig s ∧ (∀ a, a.isAttr = false → PoolSM.step orig s a = none) ∧ quiescent s = false) ∧
+    ¬ NoDeadlock ⟨true, false, true, true⟩ := by
   have key : ∀ v : Variant, v.pubUnlocked = false →
       ((runTrace v (mkInit [0] (some 0) [] ((List.range 11).map (fun k => (0, k + 1)))) deadlockTracePublish).map
         (deadlocked v) = some true) →
-      ∃ s, Reachable v s ∧ (∀ a, PoolSM.step v s a = none) ∧ quiescent s = false := by
+      ∃ s, Reachable v s ∧ (∀ a, a.isAttr = false → PoolSM.step v s a = none) ∧ quiescent s = false := by
     intro v _ h
     cases hs : runTrace v (mkInit [0] (some 0) [] ((List.range 11).map (fun k => (0, k + 1)))) deadlockTracePublish with
     | none => rw [hs] at h; cases h
@@ -199,13 +283,13 @@ theorem deadlock_orig_publish :
       rw [hs] at h
       simp only [Option.map_some, Option.some.injEq] at h
       obtain ⟨h1, h2⟩ := deadlocked_spec h
-      exact ⟨s, reachable_of_runTrace _ (Reachable.init [0] (some 0) [] _ (by decide)) hs, h1, h2⟩
+      exact ⟨s, reachable_of_runTrace _ (Reachable.init [0] (some 0) [] _ .bestPing [] (by decide) (by decide)) hs, h1, h2⟩
   refine ⟨key orig rfl (by decide), ?_⟩
   intro h
-  obtain ⟨s, hr, h1, hq⟩ := key ⟨true, false⟩ rfl (by decide)
-  rcases h s hr with h | ⟨a, _, ha⟩
+  obtain ⟨s, hr, h1, hq⟩ := key ⟨true, false, true, true⟩ rfl (by decide)
+  rcases h s hr with h | ⟨a, hae, ha⟩
   · rw [hq] at h; cases h
-  · rw [h1 a] at ha; cases ha
+  · rw [h1 a (by cases a <;> simp_all [Action.isAttr, Action.isEnv])] at ha; cases ha
 
 /-- **no_deadlock** (repaired code; any number of connections, waiters, head updates; every interleaving): an
 inductive invariant (lock ownership ↔ program counters, no connection mutex held across a step, Run's iteration
@@ -276,7 +360,8 @@ replayed on Go by `go.wait.adv.subscribe`). -/
 theorem subscribe_atomic (v : Variant) (s : State) (hr : Reachable v s) (i : Nat) (w : Waiter)
     (hw : s.waiters[i]? = some w) (hpc : w.pc = .subRead) :
     s.rw = .wrW i ∧
-    PoolSM.step v s .nRLock = none ∧ PoolSM.step v s .nPut = none ∧ PoolSM.step v s .nDone = none ∧
+    PoolSM.step v s .nRLock = none ∧ PoolSM.step v s .nCheck = none ∧ PoolSM.step v s .nPut = none ∧
+    PoolSM.step v s .nDone = none ∧
     (∀ k, PoolSM.step v s (.nSend k) = none ∧ PoolSM.step v s (.nDrain k) = none) ∧
     (∀ s', PoolSM.step v s (.wSub i) = some s' → s'.rw = .free ∧ ∃ x', s'.waiters[i]? = some x' ∧
       (x'.pc = .done .panic ∨
@@ -284,12 +369,14 @@ theorem subscribe_atomic (v : Variant) (s : State) (hr : Reachable v s) (i : Nat
   have hA := reachable_invA hr
   have hrw : s.rw = .wrW i := (hA.l1 i w hw).mp hpc
   have hl4 := hA.l4
+  have hl3 := hA.l3
   have hlt : i < s.waiters.length := (List.getElem?_eq_some_iff.mp hw).1
-  refine ⟨hrw, ?_, ?_, ?_, ?_, ?_⟩
-  · simp only [PoolSM.step]; grind
-  · simp only [PoolSM.step]; grind
-  · simp only [PoolSM.step]; grind
-  · intro k; constructor <;> (simp only [PoolSM.step]; grind)
+  refine ⟨hrw, ?_, ?_, ?_, ?_, ?_, ?_⟩
+  · simp only [PoolSM.step]; grind [RunPc.lockW, RunPc.lockR]
+  · simp only [PoolSM.step]; grind [RunPc.lockW, RunPc.lockR]
+  · simp only [PoolSM.step]; grind [RunPc.lockW, RunPc.lockR]
+  · simp only [PoolSM.step]; grind [RunPc.lockW, RunPc.lockR]
+  · intro k; constructor <;> (simp only [PoolSM.step]; grind [RunPc.lockW, RunPc.lockR])
   · intro s' hs
     simp only [PoolSM.step, hw, hpc, if_true] at hs
     split at hs
@@ -330,7 +417,7 @@ be, ready, and that receive decides `ok` (`wait_outcomes`). The drop-on-full var
 theorem eventually_notified (v : Variant) (s : State) (hr : Reachable v s) (i : Nat) (w : Waiter)
     (hw : s.waiters[i]? = some w) (hsel : w.pc = .sel) (m : Nat) (hoff : w.offered = some m) (hm : w.target ≤ m) :
     (∃ h ∈ w.buf, w.target ≤ h) ∨
-    (∃ h h' todo, s.run = .nPut h h' i todo ∧ w.target ≤ h' ∧ w.buf = []) := by
+    (∃ sw h h' todo, s.run = .nPut sw h h' i todo ∧ w.target ≤ h' ∧ w.buf = []) := by
   have hE := reachable_invE hr
   have hO := reachable_invO hr
   rcases hE.kept i w hw hsel m hoff with ⟨h, hmem, hle⟩ | hc | ⟨h, hmem, hle⟩
@@ -338,22 +425,81 @@ theorem eventually_notified (v : Variant) (s : State) (hr : Reachable v s) (i : 
   · right
     unfold carriedGe at hc
     split at hc
-    · rename_i h0 h' w0 todo hrun
+    · rename_i sw h0 h' w0 todo hrun
       simp only [Bool.and_eq_true, beq_iff_eq, decide_eq_true_eq] at hc
       obtain ⟨rfl, hle⟩ := hc
-      exact ⟨h0, h', todo, hrun, Nat.le_trans hm hle, hE.putEmpty _ _ _ _ hrun w hw⟩
+      exact ⟨sw, h0, h', todo, hrun, Nat.le_trans hm hle, hE.putEmpty _ _ _ _ _ hrun w hw⟩
     · cases hc
   · have := hO.selLow i w hw hsel h hmem
     omega
+
+/-- **wait_success_spec** (liveness of the repaired protocol under explicit fairness). Take any infinite execution
+of the repaired model (any interleaving of any number of waiters, SetMasterHead callers, ticks, liveness changes) in
+which `Run` is weakly fair (it is not ignored forever while it can move) and the waiter's receive is strongly fair
+(Go hands a sent value directly to a receiver blocked in its select; over the model's buffered channel that is strong
+fairness of the receive — weak fairness is not enough because `Run` may take the head back and put a newer one
+again and again). If at some moment waiter `i` is in its select and a head `h ≥ target` of the best connection
+* is in its channel (this covers "reported before": subscribe's short circuit puts it there), or
+* is being handed out by notifySubscribers / by updateBest after a switch and `i` has not been served yet, or
+* is carried by `Run` between its two selects for `i`'s channel,
+and neither its timer nor its context fires afterwards, then the waiter's result becomes `ok`. Together with
+`wait_outcomes` (ok only for a head ≥ target, err only after timer/ctx), `no_deadlock` and `wait_returns` (the
+deferred unsubscribe after the decision gets the pool lock). -/
+theorem wait_success_spec (e : Exec fixed) (i n0 : Nat) (w : Waiter)
+    (hfR : WeakFair e RunAct) (hfW : StrongFair e (RecvAct i))
+    (hnofire : ∀ m, n0 ≤ m → e.act m ≠ .wFire i)
+    (hw : (e.st n0).waiters[i]? = some w) (hsel : w.pc = .sel)
+    (hoff : (∃ h ∈ w.buf, w.target ≤ h) ∨
+      (∃ sw h todo, (e.st n0).run = .nLoop sw h todo ∧ i ∈ todo ∧ w.target ≤ h) ∨
+      (∃ sw h h' x todo, (e.st n0).run = .nPut sw h h' x todo ∧ i ∈ todo ∧ w.target ≤ h) ∨
+      (∃ sw h h' todo, (e.st n0).run = .nPut sw h h' i todo ∧ w.target ≤ h')) :
+    ∃ m, n0 ≤ m ∧ ∃ w', (e.st m).waiters[i]? = some w' ∧ (w'.pc = .leave .ok ∨ w'.pc = .done .ok) := by
+  have hA := reachable_invA (e.reachable n0)
+  have hg : Good (e.st n0) i := by
+    intro w0 hw0
+    rw [hw] at hw0; cases hw0
+    refine Or.inl ⟨hsel, ?_⟩
+    simp only [Bool.or_eq_true]
+    rcases hoff with ⟨h, hmem, hle⟩ | ⟨sw, h, todo, hr, hi, hle⟩ | ⟨sw, h, h', x, todo, hr, hi, hle⟩ |
+        ⟨sw, h, h', todo, hr, hle⟩
+    · right
+      have hc := hA.cap1 i w hw
+      unfold bufGe
+      cases hb : w.buf with
+      | nil => rw [hb] at hmem; cases hmem
+      | cons u rest =>
+        rw [hb] at hmem hc
+        have : rest = [] := by cases rest <;> simp_all
+        subst this
+        simp at hmem; subst hmem
+        simpa using hle
+    · left; left; simp [preGe, hr, hi, hle]
+    · left; left; simp [preGe, hr, hi, hle]
+    · left; right; simp [carriedGe, hr, hle]
+  obtain ⟨m, hm, hd⟩ := decided_eventually (v := fixed) rfl e i n0 hnofire hfR hfW ⟨w, hw⟩ hg
+  obtain ⟨w', hw'⟩ := exec_waiter_some e i n0 ⟨w, hw⟩ m hm
+  exact ⟨m, hm, w', hw', hd w' hw'⟩
+
+/-- **wait_returns**: the decided waiter returns. After the decision (`leave r`) the deferred unsubscribe needs the
+pool's write lock. If `Run` and every subscribing waiter are weakly fair they release the lock again and again
+(`Run`'s critical sections terminate: measure over the remaining reads / channels; a subscriber finishes its one
+step), and with strong fairness of the waiter's own lock acquisition (Go's mutex does not starve a waiting locker)
+the unsubscribe happens: the call returns `r`. With `wait_success_spec`: a fair execution returns success. -/
+theorem wait_returns (e : Exec fixed) (i n0 : Nat) (r : WRes)
+    (hfR : WeakFair e RunAct) (hfS : ∀ k, WeakFair e (SubAct k)) (hfU : StrongFair e (UnsubAct i))
+    (hw : ∃ w, (e.st n0).waiters[i]? = some w ∧ w.pc = .leave r) :
+    ∃ m, n0 ≤ m ∧ ∃ w, (e.st m).waiters[i]? = some w ∧ w.pc = .done r :=
+  returns_eventually (v := fixed) rfl rfl e hfR hfS i n0 r hfU hw
 
 /-- with a best connection chosen initially (which `addConnection` guarantees for a non-empty pool) no waiter ever
 dereferences a nil `bestConn`: `subscribe` does not panic. (On an EMPTY pool `WaitMasterchainSeqno` does panic —
 `p.bestConn.MasterHead()` on a nil interface; outside the property's quantifier, noted in the report.) -/
 theorem no_nil_deref (v : Variant) (heads : List Nat) (c : Nat) (targets : List Nat) (pubs : List (Nat × Nat))
-    (hp : ∀ p ∈ pubs, p.1 < heads.length) (as : List Action) (s : State)
-    (h : runTrace v (mkInit heads (some c) targets pubs) as = some s) :
+    (st : Strategy) (rtts : List Int)
+    (hp : ∀ p ∈ pubs, p.1 < heads.length ∧ p.2 < 2 ^ 32) (hh : ∀ h ∈ heads, h < 2 ^ 32) (as : List Action) (s : State)
+    (h : runTrace v (mkInit heads (some c) targets pubs st rtts) as = some s) :
     s.best ≠ none ∧ ∀ (i : Nat) (w : Waiter), s.waiters[i]? = some w → w.pc ≠ .done .panic := by
-  refine noPanic_trace as (Reachable.init heads (some c) targets pubs hp) ⟨by simp [mkInit], ?_⟩ h
+  refine noPanic_trace as (Reachable.init heads (some c) targets pubs st rtts hp hh) ⟨by simp [mkInit], ?_⟩ h
   intro i w hw
   have := mkInit_waiter hw
   simp [this.1]
@@ -362,7 +508,7 @@ theorem no_nil_deref (v : Variant) (heads : List Nat) (c : Nat) (targets : List 
 head 6 and holds it unread in its channel. -/
 example :
     (runTrace fixed (mkInit [5] (some 0) [6] [(0, 6)]) [.wLock 0, .wSub 0, .sLock 0, .sSend 0, .recv, .nRLock,
-      .nDrain 0, .nPut]).map (fun s => s.waiters.map (fun w => (w.pc, w.buf, w.offered))) =
+      .nCheck, .nDrain 0, .nPut]).map (fun s => s.waiters.map (fun w => (w.pc, w.buf, w.offered))) =
     some [(.sel, [6], some 6)] := by decide
 
 end Tongo.C13
